@@ -118,15 +118,25 @@ def compile_and_dump(ctx, sample, feats, be):
     main = ["fn dump<Q: quantities::Quantity>() -> String { use quantities::Unit; Q::iter_units().map(|u| format!(\"{}|{}|{}\", u.name(), u.symbol(), "
             "match u.si_prefix() { Some(p) => format!(\"Some {:?}\", p), None => \"None\".to_string() })).collect::<Vec<_>>().join(\" ; \") }",
             "fn main() {"]
+    main.insert(2, "    use quantities::prelude::*;")
     for tag, df in sample:
         main.append(f'    println!("{tag}\\t{{}}", dump::<{tag}::{df.name}>());')
+        # a derived definition must come with its operators: the declared result type is checked by rustc
+        ex = {"Foo * Bar": "(Amnt!(2.0) * {t}::FU) * (Amnt!(3.0) * {t}::BU)", "Foo / Bar": "(Amnt!(2.0) * {t}::FU) / (Amnt!(3.0) * {t}::BU)",
+              "Foo * Foo": "(Amnt!(2.0) * {t}::FU) * (Amnt!(3.0) * {t}::KILOFU)", "AmountT / Bar": "Amnt!(2.0) / (Amnt!(3.0) * {t}::BU)",
+              "Bar / Foo": "(Amnt!(2.0) * {t}::BU) / (Amnt!(3.0) * {t}::FU)"}.get(df.qargs or "")
+        if ex:
+            main.append(f'    let _r: {tag}::{df.name} = ' + ex.format(t=tag) + ';')
     main.append("}")
     open(os.path.join(d, "src", "main.rs"), "w", encoding="utf-8").write(body.replace("#![allow(warnings)]", "") .replace("// GENERATED", "#![allow(warnings)]\n// GENERATED") + "\n".join(main) + "\n")
     rc, out, dt = fw.sh(["cargo", "run", "--offline", "--quiet"], cwd=d, timeout=1800, env={"CARGO_TARGET_DIR": os.path.join(fw.BUILD, "target-c11"), "RUSTFLAGS": "-Awarnings"})
     ctx.log(f"[c11] rustc sample {be}: rc={rc} {dt:.1f}s")
     if rc != 0:
         ctx.log(out[-3000:])
-        return [None] * len(sample)
+        if len(sample) > 1:
+            # find the definition(s) that do not compile: one program per definition
+            return [compile_and_dump(ctx, [one], feats, be)[0] for one in sample]
+        return [None]
     got = {}
     for line in out.split("\n"):
         if "\t" in line:
